@@ -1,16 +1,23 @@
-_R = ["done", "added", "rejected", "hit", "miss", "relimit", "expired", "purged-for-add", "purged-for-limit"]
+_OV = "every operation is followed by a comparison of memLimit(), memoryUsed() (<= memLimit()), freeMem(), entries() and the complete traversal (key, value, accounted size, expiry time, recency order) with the reference"
 SPEC = dict(
     harness="C51_clpmap.cc", units=[],
     entries=dict(
         quick=[
-            dict(name="c51_symbolic", bounds="TODO", reach=_R, sample_every=53),
-            dict(name="c51_sized", bounds="TODO", reach=_R, sample_every=53),
+            dict(name="c51_lru", bounds="instantiation ClpMap<Key,Val,ValMemory> (harness key type with length(), 2-valued hash); keys 1..3 accounting 3/8/13 bytes, value size 8 (or 40 for key 1); initial capacity in {one small entry, any two entries, unlimited}; every sequence of 4 operations from add(4 variants, symbolic value) / get(k) / del(k) / setMemLimit(c in {0, exactly the smallest entry, one small, any two, unlimited}) with the last one an add or setMemLimit; no expiry; " + _OV,
+                 reach=["done", "added", "rejected", "hit", "miss", "relimit", "purged-for-add", "purged-for-limit"], sample_every=4001),
+            dict(name="c51_ttl", bounds="keys 1..2, capacity for one entry or unlimited; clock starts at 1000 or anywhere in the last 65535 s of time_t; every sequence of 3 operations from add(k, ttl: any 16-bit signed value or INT_MAX, symbolic) / get(k) / clock advance (any 16-bit value, symbolic); " + _OV,
+                 reach=["done", "added", "rejected", "hit", "miss", "expired", "purged-for-add"], sample_every=151),
+            dict(name="c51_sizes", bounds="symbolic accounting: key 1 length 3..258, value size any 8-bit value or 2^64-1 minus an 8-bit value (overflows the 64-bit accounting), capacities any 16-bit value; every sequence of 2 operations from add / get / del / setMemLimit (the last one an add or setMemLimit); " + _OV,
+                 reach=["done", "added", "rejected", "relimit", "purged-for-add", "purged-for-limit"], sample_every=11),
         ],
         thorough=[
-            dict(name="c51_symbolic", bounds="TODO", reach=_R, sample_every=503),
-            dict(name="c51_sized", bounds="TODO", reach=_R, sample_every=503),
+            dict(name="c51_lru", bounds="as quick with every sequence of 5 operations", reach=["done", "added", "rejected", "hit", "miss", "relimit", "purged-for-add", "purged-for-limit"], sample_every=60001),
+            dict(name="c51_ttl", bounds="as quick with every sequence of 4 operations", reach=["done", "added", "rejected", "hit", "miss", "expired", "purged-for-add"], sample_every=2001),
+            dict(name="c51_sizes", bounds="as quick with every sequence of 3 operations", reach=["done", "added", "rejected", "relimit", "purged-for-add", "purged-for-limit"], sample_every=101),
         ]),
     timeout=dict(quick=170, thorough=1500),
-    stubs=["std::__detail::_List_node_base::_M_transfer and _Prime_rehash_policy::_M_next_bkt/_M_need_rehash defined in the harness for the interpreted build (libstdc++.so has no bitcode)", "engine/models/cxx.cc _List_node_base::_M_hook/_M_unhook", "memAllocBuf/memFreeBuf: plain heap blocks", "squid_curtime is a plain global set by the harness"],
-    outside="TODO",
+    stubs=["std::__detail::_List_node_base::_M_transfer and _Prime_rehash_policy::_M_next_bkt/_M_need_rehash defined in the harness for the interpreted build (libstdc++.so has no bitcode; bucket counts above 13 are odd numbers instead of primes)",
+           "engine/models/cxx.cc _List_node_base::_M_hook/_M_unhook", "memAllocBuf/memFreeBuf: plain heap blocks", "squid_curtime is a plain global set by the harness"],
+    assumptions=["reference semantics where ClpMap.h is silent or contradicts itself: add() forgets the previous value of the key even when the new value is rejected (tests/testClpMap.cc testNegativeTtl demands it; the header comment says 'the map remains unchanged'); victims are taken strictly from the LRU end whether expired or not; traversal starts at the most recently used entry (the header comment says 'least recently used entry first')"],
+    outside="other Key/Value types (ClpMap<SBuf,...> as used by Squid: std::hash<SBuf>), more than 3 keys (unordered_map rehashing), longer sequences, sizes/TTLs/clock values wider than the stated symbolic widths, the clock moving backwards",
 )
